@@ -168,11 +168,11 @@ class SimAioTransport(asyncio.Transport):
             raise RuntimeError("Cannot call write() after write_eof()")
         if not data:
             return
+        for o in self.observers:
+            o(data)
         if self._conn_lost:
             self._conn_lost += 1
             return
-        for o in self.observers:
-            o(data)
         self.written_total += len(data)
         self.flushed_total += len(data)
         self.link_out.push(data)
@@ -402,3 +402,17 @@ def future_state(f):
     if e is not None:
         return ("err", e)
     return ("ok", f.result())
+
+
+def new_future(world):
+    return world.reactor.create_future()
+
+
+def resolve_future(f, value):
+    if not f.done():
+        f.set_result(value)
+
+
+def reject_future(f, exc):
+    if not f.done():
+        f.set_exception(exc)
